@@ -175,6 +175,10 @@ pub struct BackendRun {
     /// per handle: how many versions were accepted when the handle last made a call (what a handle
     /// that caches the chain head would still believe)
     pub seen: Vec<usize>,
+    /// handles whose process has stopped and was not started again yet
+    pub down: Vec<bool>,
+    /// per handle: the interrupted add_version (parent, payload, symbols) that showed no trace so far
+    pub pending: Vec<Option<(Uuid, Vec<u8>, String, String)>>,
     /// fault armed for the next add_version / add_snapshot / sync of a handle: (handle, spec)
     pub armed: Option<(usize, String)>,
     /// replicas of the replica-level rounds (`EP` lines), created on first use
@@ -260,6 +264,8 @@ impl BackendRun {
             armed: None,
             replicas: Vec::new(),
             seen: vec![0; nhandles],
+            down: vec![false; nhandles],
+            pending: vec![None; nhandles],
         };
         match kind {
             Kind::Local | Kind::GitLocal => {
@@ -341,14 +347,20 @@ impl BackendRun {
         }
         self.armed = None;
         if let Some(st) = &self.store {
-            let (kind, m) = match spec.split_once(':') {
-                Some(("before", m)) => (Fault::Before, m.parse::<usize>().unwrap_or(1)),
-                Some(("after", m)) => (Fault::After, m.parse::<usize>().unwrap_or(1)),
-                _ => return false,
-            };
+            let parts: Vec<&str> = spec.split(':').collect();
+            let fk = |x: &str| if x == "before" { Some(Fault::Before) } else if x == "after" { Some(Fault::After) } else { None };
             let mut s = st.lock().unwrap();
-            let c = s.counts[h];
-            s.faults[h] = Some((c + m, kind));
+            match parts.as_slice() {
+                [k, m] if fk(k).is_some() => {
+                    let c = s.counts[h];
+                    s.faults[h] = Some((c + m.parse::<usize>().unwrap_or(1), fk(k).unwrap()));
+                }
+                // the n-th request of a kind: cas:after:1
+                [kind, k, n] if fk(k).is_some() => {
+                    s.faults_by_kind[h] = Some((kind.to_string(), n.parse::<usize>().unwrap_or(1), fk(k).unwrap()));
+                }
+                _ => return false,
+            }
         } else {
             arm_failpoint(&spec, 1);
         }
@@ -357,7 +369,9 @@ impl BackendRun {
 
     fn disarm(&mut self, h: usize) {
         if let Some(st) = &self.store {
-            st.lock().unwrap().faults[h] = None;
+            let mut s = st.lock().unwrap();
+            s.faults[h] = None;
+            s.faults_by_kind[h] = None;
         }
         disarm_failpoint();
     }
@@ -365,8 +379,22 @@ impl BackendRun {
     /// the process that owned handle `h` stops: the handle is dropped as it is and opened again
     fn crash(&mut self, h: usize) {
         self.handles[h] = None;
-        self.open(h);
+        self.down[h] = true;
         self.stat("crash");
+        if self.kind == Kind::GitLocal {
+            // all handles of this configuration share ONE git working directory, which the git
+            // server does not protect against two processes at once (no lock, uncommitted files are
+            // visible): the property speaks about the state after restart, so the stopped process is
+            // restarted before anybody else looks
+            self.ensure_open(h);
+        }
+    }
+
+    fn ensure_open(&mut self, h: usize) {
+        if self.handles[h].is_none() {
+            self.open(h);
+            self.down[h] = false;
+        }
     }
 
     /// after an interrupted add_version(parent, payload): what every handle now says the child of
@@ -374,7 +402,15 @@ impl BackendRun {
     fn resolve_av(&mut self, parent: Uuid, payload: &[u8]) -> String {
         let known_child = self.accepted.len();
         let mut seen: Vec<Option<(Uuid, Vec<u8>)>> = Vec::new();
+        if self.handles.iter().all(|h| h.is_none()) {
+            // nobody else is there to look: the stopped process starts again
+            let h = self.down.iter().position(|d| *d).unwrap_or(0);
+            self.ensure_open(h);
+        }
         for i in 0..self.handles.len() {
+            if self.handles[i].is_none() {
+                continue;
+            }
             let r = self.call(i, |s, rt| rt.block_on(s.get_child_version(parent)));
             match r {
                 Ok(GetVersionResult::Version { version_id, history_segment, .. }) => seen.push(Some((version_id, history_segment))),
@@ -462,6 +498,12 @@ impl BackendRun {
 
     fn exec1(&mut self, line: &str) -> (String, String) {
         let toks: Vec<&str> = line.split_whitespace().collect();
+        if let (Some(c), Some(h)) = (toks.first(), toks.get(1).and_then(|h| h.parse::<usize>().ok())) {
+            if ["AV", "GC", "AS", "GS"].contains(c) && h < self.handles.len() && self.handles[h].is_none() {
+                // (only replayed / shrunk cases get here: the generator restarts a stopped handle first)
+                return self.exec1(&format!("REOPEN {}", h));
+            }
+        }
         match toks.as_slice() {
             ["H", _] => (line.to_string(), String::new()),
             ["BACKEND", _] => (line.to_string(), String::new()),
@@ -475,6 +517,7 @@ impl BackendRun {
                 let r: usize = r.parse().unwrap();
                 let k: u128 = k.parse().unwrap();
                 let h = r % self.handles.len();
+                self.ensure_open(h);
                 let uuid = Uuid::from_u128(0x5000 + k);
                 let ops = vec![
                     Operation::Create { uuid },
@@ -505,6 +548,9 @@ impl BackendRun {
                 // everybody synchronizes (twice round-robin), then every replica's tasks are printed
                 let n = self.replicas.len().max(2);
                 let mut out = Vec::new();
+                for h in 0..self.handles.len() {
+                    self.ensure_open(h);
+                }
                 for round in 0..2 {
                     for r in 0..n {
                         let h = r % self.handles.len();
@@ -545,6 +591,9 @@ impl BackendRun {
                         let _ = e;
                         self.crash(h);
                         let res = self.resolve_av(parent, &pl2);
+                        if res == "absent" && self.down[h] {
+                            self.pending[h] = Some((parent, pl2.clone(), p.to_string(), b.to_string()));
+                        }
                         self.stat(&format!("resolved.{}", res.split(':').next().unwrap()));
                         let out = if res == "accepted" { format!("interrupted accepted v{}", self.accepted.len()) } else { format!("interrupted {}", res) };
                         return (format!("AV {} {} {} !{}", h, p, b, res), out);
@@ -617,7 +666,13 @@ impl BackendRun {
                     self.crash(h);
                     // stored or not: whatever get_snapshot now returns, from every handle alike
                     let mut seen = Vec::new();
+                    if self.handles.iter().all(|x| x.is_none()) {
+                        self.ensure_open(h);
+                    }
                     for i in 0..self.handles.len() {
+                        if self.handles[i].is_none() {
+                            continue;
+                        }
                         seen.push(self.call(i, |s, rt| rt.block_on(s.get_snapshot())).ok().flatten());
                     }
                     let res = if seen.iter().any(|x| *x != seen[0]) {
@@ -644,10 +699,23 @@ impl BackendRun {
                     Err(e) => (format!("GS {} -> none", h), format!("err:{}", e)),
                 }
             }
-            ["REOPEN", h] => {
+            ["REOPEN", h, ..] => {
                 let h: usize = h.parse().unwrap();
+                self.handles[h] = None;
                 self.open(h);
-                (line.to_string(), "reopened".into())
+                self.down[h] = false;
+                // an interrupted add_version of this handle that left no trace so far may be finished
+                // now that its process is back (git: the unpushed commit is pushed on open)
+                if let Some((parent, payload, psym, bhex)) = self.pending[h].take() {
+                    let res = self.resolve_av(parent, &payload);
+                    if res == "accepted" {
+                        self.stat("late-accepted");
+                        return (format!("REOPEN {} !accepted {} {}", h, psym, bhex), format!("reopened accepted v{}", self.accepted.len()));
+                    } else if res != "absent" {
+                        return (format!("REOPEN {} !{}", h, res), format!("reopened {}", res));
+                    }
+                }
+                (format!("REOPEN {}", h), "reopened".into())
             }
             _ => (line.to_string(), "bad-op".into()),
         }
@@ -662,14 +730,35 @@ pub fn fault_specs(kind: Kind) -> Vec<String> {
             "git.add_version.after-meta".into(),
             "git.add_version.after-commit".into(),
         ],
-        // add_version makes 3-4 object-store requests, a whole sync a few more
-        Kind::Cloud => [1, 2, 3, 4, 1, 2, 3, 4, 5, 6, 8].iter().flat_map(|m| vec![format!("before:{}", m), format!("after:{}", m)]).collect(),
+        // add_version: get latest, put version, compare-and-swap latest, (delete on a lost race), snapshot info
+        Kind::Cloud => [
+            "before:1", "after:1", "before:2", "after:2", "before:3", "after:3", "before:4", "after:4", "after:5", "after:6", "before:8",
+            "cas:before:1", "cas:after:1", "cas:after:1", "put:before:1", "put:after:1", "get:after:1", "get:after:2", "get:before:2", "list:after:1", "del:after:1",
+        ]
+        .iter()
+        .map(|s| s.to_string())
+        .collect(),
         Kind::Http => vec![],
     }
 }
 
 pub fn gen_line(run: &mut BackendRun, rng: &mut Rng, nhandles: usize, nver: &mut usize) -> String {
     let h = rng.below(nhandles as u64);
+    let _ = nver;
+    if run.down.get(h as usize).cloned().unwrap_or(false) {
+        // a stopped process starts again sooner or later; meanwhile the others carry on
+        if rng.below(3) > 0 || run.down.iter().all(|d| *d) {
+            return format!("REOPEN {}", h);
+        }
+        let up: Vec<usize> = (0..nhandles).filter(|i| !run.down[*i]).collect();
+        let h2 = *rng.pick(&up[..]) as u64;
+        return gen_line_on(run, rng, h2, nhandles);
+    }
+    gen_line_on(run, rng, h, nhandles)
+}
+
+fn gen_line_on(run: &mut BackendRun, rng: &mut Rng, h: u64, nhandles: usize) -> String {
+    let _ = nhandles;
     let payloads: Vec<Vec<u8>> = vec![
         vec![],
         b"x".to_vec(),
@@ -691,7 +780,6 @@ pub fn gen_line(run: &mut BackendRun, rng: &mut Rng, nhandles: usize, nver: &mut
             _ => format!("x{}", rng.below(3)),
         }
     };
-    let _ = nver;
     // what this handle saw as the latest version when it last made a call
     let stale = run.seen.get(h as usize).cloned().unwrap_or(0);
     match rng.below(20) {
